@@ -164,8 +164,8 @@ func genC18Trace(seed uint64, thorough, lockedProfile bool) *C18Trace {
 
 type c18Ev struct {
 	Ent            ecs.Entity
-	Added, Removed ecs.Mask
-	OldRel, NewRel int
+	Added, Removed uint32 // sets of c18Types indices
+	OldRel, NewRel int    // c18Types index, -1 = none
 	OldTarget      ecs.Entity
 	Types          uint8
 }
@@ -173,7 +173,32 @@ type c18Ev struct {
 type c18World struct {
 	w   ecs.World
 	ids []ecs.ID // by c18Types index
+	reg []bool   // registered in this world
 	evs []c18Ev
+}
+
+func (cw *c18World) typeOfID(id ecs.ID) int {
+	for t, ok := range cw.reg {
+		if ok && cw.ids[t] == id {
+			return t
+		}
+	}
+	return -2
+}
+
+func (cw *c18World) setOfMask(m *ecs.Mask) uint32 {
+	var s uint32
+	n := m.TotalBitsSet()
+	for t, ok := range cw.reg {
+		if ok && m.Get(cw.ids[t]) {
+			s |= 1 << uint(t)
+			n--
+		}
+	}
+	if n != 0 {
+		s |= 1 << 31 // an ID that is not one of the known types
+	}
+	return s
 }
 
 type c18Listener struct{ cw *c18World }
@@ -181,20 +206,24 @@ type c18Listener struct{ cw *c18World }
 func (l *c18Listener) Subscriptions() event.Subscription { return event.All }
 func (l *c18Listener) Components() *ecs.Mask             { return nil }
 func (l *c18Listener) Notify(w *ecs.World, e ecs.EntityEvent) {
-	ev := c18Ev{Ent: e.Entity, Added: e.Added, Removed: e.Removed, OldRel: -1, NewRel: -1, OldTarget: e.OldTarget, Types: uint8(e.EventTypes)}
+	ev := c18Ev{Ent: e.Entity, Added: l.cw.setOfMask(&e.Added), Removed: l.cw.setOfMask(&e.Removed), OldRel: -1, NewRel: -1, OldTarget: e.OldTarget, Types: uint8(e.EventTypes)}
 	if e.OldRelation != nil {
-		ev.OldRel = int(idOf(*e.OldRelation))
+		ev.OldRel = l.cw.typeOfID(*e.OldRelation)
 	}
 	if e.NewRelation != nil {
-		ev.NewRel = int(idOf(*e.NewRelation))
+		ev.NewRel = l.cw.typeOfID(*e.NewRelation)
 	}
 	l.cw.evs = append(l.cw.evs, ev)
 }
 
-func newC18World(tr *C18Trace) *c18World {
-	cw := &c18World{w: ecs.NewWorld(ecs.NewConfig().WithCapacityIncrement(tr.CapInc)), ids: make([]ecs.ID, len(c18Types))}
+func newC18World(tr *C18Trace, late map[int]bool) *c18World {
+	cw := &c18World{w: ecs.NewWorld(ecs.NewConfig().WithCapacityIncrement(tr.CapInc)), ids: make([]ecs.ID, len(c18Types)), reg: make([]bool, len(c18Types))}
 	for _, t := range tr.RegOrder {
+		if late[t] {
+			continue // registered later, by whichever call needs it first
+		}
 		cw.ids[t] = ecs.TypeID(&cw.w, c18Types[t])
+		cw.reg[t] = true
 	}
 	cw.w.SetListener(&c18Listener{cw})
 	return cw
@@ -213,6 +242,7 @@ type c18Run struct {
 	dead      []ecs.Entity
 	locked    bool
 	resMapper *generic.Resource[C18Res]
+	filt      *c18Filt
 }
 
 func typeIndex(t reflect.Type) int {
@@ -359,6 +389,9 @@ func (r *c18Run) compare() *Violation {
 		}
 		e := ga[i]
 		for t := range c18Types {
+			if !r.registered(t) {
+				continue
+			}
 			gh, kh := r.G.w.Has(e, r.G.ids[t]), r.K.w.Has(e, r.K.ids[t])
 			if gh != kh {
 				return r.viol("entity %v: component %v present=%v in the generic world, %v in the core twin", e, c18Types[t], gh, kh)
@@ -389,7 +422,7 @@ func (r *c18Run) compare() *Violation {
 		return r.viol("generic world emitted %d events, core twin %d", len(ge), len(ke))
 	}
 	key := func(e c18Ev) string {
-		return fmt.Sprintf("%d.%d %v %v %d %d %v %d", e.Ent.ID(), e.Ent.Generation(), e.Added, e.Removed, e.OldRel, e.NewRel, e.OldTarget, e.Types)
+		return fmt.Sprintf("%d.%d +%v -%v %d %d %v %d", e.Ent.ID(), e.Ent.Generation(), listOf(e.Added), listOf(e.Removed), e.OldRel, e.NewRel, e.OldTarget, e.Types)
 	}
 	gs, ks := make([]string, len(ge)), make([]string, len(ke))
 	for i := range ge {
@@ -487,7 +520,7 @@ func (r *c18Run) batchFilter(c *cursor, forAdd bool) (gf, kf ecs.Filter) {
 				in = true
 			}
 		}
-		if !in {
+		if !in && r.registered(t) {
 			other = append(other, t)
 		}
 	}
@@ -506,14 +539,58 @@ func (r *c18Run) batchFilter(c *cursor, forAdd bool) (gf, kf ecs.Filter) {
 	return &g, &k
 }
 
+// syncTypes mirrors, in registration order, every type the generic world has registered by itself into the twin,
+// and refreshes the ID tables. Types the twin registered on its own (because the documented equivalent needs the ID)
+// are looked up, not compared by number: all comparisons go through type indices.
+func (r *c18Run) syncTypes() {
+	for _, cw := range []*c18World{r.G, r.K} {
+		other := r.K
+		if cw == r.K {
+			other = r.G
+		}
+		ids := ecs.ComponentIDs(&cw.w)
+		for _, id := range ids {
+			info, ok := ecs.ComponentInfo(&cw.w, id)
+			if !ok {
+				continue
+			}
+			t := typeIndex(info.Type)
+			if t < 0 {
+				continue
+			}
+			if !cw.reg[t] {
+				cw.ids[t], cw.reg[t] = id, true
+			}
+			if !other.reg[t] {
+				other.ids[t] = ecs.TypeID(&other.w, c18Types[t])
+				other.reg[t] = true
+				r.stats["type-registered-late"]++
+			}
+		}
+	}
+}
+
+func (r *c18Run) registered(t int) bool { return r.G.reg[t] && r.K.reg[t] }
+
 func RunC18(tr *C18Trace) (*Violation, *c18Run) {
 	r := &c18Run{tr: tr, stats: map[string]int{}}
-	r.G, r.K = newC18World(tr), newC18World(tr)
 	r.drv = newMapDriver(tr.N, tr.Perm)
-	r.drv.Init(&r.G.w)
 	for _, t := range r.drv.Types() {
 		r.mapT = append(r.mapT, typeIndex(t))
 	}
+	// up to two plain types that the mapper does not use are left unregistered at first: a generic filter builder
+	// naming them (With / Without) then meets a type the world does not know yet
+	late := map[int]bool{}
+	if len(tr.RegOrder) > 0 {
+		for _, t := range tr.RegOrder {
+			if len(late) < 2 && t < 12 && t != 5 && !contains2(r.mapT, t) && (tr.Seed>>uint(t))&1 == 1 {
+				late[t] = true
+			}
+		}
+	}
+	r.G, r.K = newC18World(tr, late), newC18World(tr, late)
+	r.drv.Init(&r.G.w)
+	r.syncTypes()
 	r.relT = -1
 	if rt := r.drv.RelType(); rt != nil {
 		r.relT = typeIndex(rt)
@@ -530,6 +607,7 @@ func RunC18(tr *C18Trace) (*Violation, *c18Run) {
 			if v = r.doStep(&tr.Steps[i]); v != nil {
 				return
 			}
+			r.syncTypes()
 			if v = r.compare(); v != nil {
 				return
 			}
@@ -780,6 +858,9 @@ func (r *c18Run) doStep(st *Step) *Violation {
 		n := c.n(4)
 		for i := 0; i < n; i++ {
 			t := c.n(13)
+			if !r.registered(t) {
+				continue
+			}
 			dup := false
 			for _, x := range ts {
 				if x == t {
@@ -804,6 +885,9 @@ func (r *c18Run) doStep(st *Step) *Violation {
 			return nil
 		}
 		t := c.n(14)
+		if !r.registered(t) {
+			return nil
+		}
 		if K.Has(e, r.K.ids[t]) {
 			v, _ := r.both("World.Remove (background)", func() { G.Remove(e, r.G.ids[t]) }, func() { K.Remove(e, r.K.ids[t]) })
 			return v
@@ -1010,6 +1094,9 @@ func (r *c18Run) opExchange(c *cursor) *Violation {
 	}
 	for t := 0; t < 14; t++ {
 		k := c.n(100)
+		if !r.registered(t) {
+			continue
+		}
 		if e.IsZero() {
 			if k < 15 && t != c18RelB && !(forceRel && t == c18RelA) {
 				add = append(add, t)
@@ -1041,7 +1128,7 @@ func (r *c18Run) opExchange(c *cursor) *Violation {
 		case 1:
 			ex = generic.NewExchange(G).WithRelation(generic.T[GRelA]()).Adds(ac...)
 		default:
-			ex = generic.NewExchange(G).Adds(generic.T[G0](), generic.T[GRelA]()).WithRelation(generic.T[GRelA]()).Adds(ac...)
+			ex = generic.NewExchange(G).Adds(generic.T[G5](), generic.T[GRelA]()).WithRelation(generic.T[GRelA]()).Adds(ac...)
 		}
 		var ge, ke ecs.Entity
 		v, _ := r.both("Exchange.NewEntity(target)", func() { ge = ex.NewEntity(tg) }, func() {
@@ -1146,220 +1233,185 @@ func (r *c18Run) opExchange(c *cursor) *Violation {
 	return nil
 }
 
-// opFilter: builder methods in drawn orders, before the first query and between queries, registered or not.
+// c18Filt is a generic filter object that lives across steps, with its configuration mirrored on the core side.
+type c18Filt struct {
+	f           filterDriver
+	include     []int
+	optional    []int
+	exclude     []int
+	exclusive   bool
+	rel         int
+	fixedTarget *ecs.Entity
+	registered  bool
+	nq          int
+}
+
+// opFilter: one round on a filter object that persists across steps — a few builder calls in a drawn order, now and
+// then Register / Unregister, then a query — so that builder calls fall before the first query and between queries
+// while the world changes in between. The selection must equal the core filter for the configuration at that time.
 func (r *c18Run) opFilter(c *cursor) *Violation {
 	G, K := &r.G.w, &r.K.w
 	comps := func(t int) generic.Comp { return generic.Comp(c18Types[t]) }
-	f := r.drv.NewFilter()
-	// configuration mirrored on the core side
-	include := append([]int{}, r.mapT...)
-	var optional, exclude []int
-	exclusive := false
-	rel := -1
-	var fixedTarget *ecs.Entity
-	inMap := func(t int) bool {
-		for _, m := range r.mapT {
-			if m == t {
-				return true
-			}
-		}
-		return false
+	if r.filt != nil && !r.filt.registered && c.n(100) < 18 {
+		r.filt = nil
+	} else {
+		c.n(1)
 	}
+	if r.filt == nil {
+		r.filt = &c18Filt{f: r.drv.NewFilter(), include: append([]int{}, r.mapT...), rel: -1}
+		r.Concrete = append(r.Concrete, "new FilterN")
+	}
+	fl := r.filt
+	f := fl.f
+	inMap := func(t int) bool { return contains2(r.mapT, t) }
 	coreFilter := func(target *ecs.Entity) ecs.Filter {
 		var inc []int
-		for _, t := range include {
-			opt := false
-			for _, o := range optional {
-				if o == t {
-					opt = true
-				}
-			}
-			if !opt {
+		for _, t := range fl.include {
+			if !contains2(fl.optional, t) {
 				inc = append(inc, t)
+			}
+		}
+		for _, t := range append(append([]int{}, fl.include...), fl.exclude...) {
+			if !r.K.reg[t] {
+				// the documented equivalent needs the ID, so it registers the type
+				r.K.ids[t] = ecs.TypeID(K, c18Types[t])
+				r.K.reg[t] = true
 			}
 		}
 		mask := ecs.All(r.idsOf(r.K, inc)...)
 		var flt ecs.Filter = mask
-		if exclusive {
+		if fl.exclusive {
 			mf := mask.Exclusive()
 			flt = &mf
-		} else if len(exclude) > 0 {
-			mf := mask.Without(r.idsOf(r.K, exclude)...)
+		} else if len(fl.exclude) > 0 {
+			mf := mask.Without(r.idsOf(r.K, fl.exclude)...)
 			flt = &mf
 		}
 		tg := target
-		if fixedTarget != nil {
-			tg = fixedTarget
+		if fl.fixedTarget != nil {
+			tg = fl.fixedTarget
 		}
-		if rel >= 0 && tg != nil {
+		if fl.rel >= 0 && tg != nil {
 			rf := ecs.NewRelationFilter(flt, *tg)
 			return &rf
 		}
 		return flt
 	}
-	registered := false
-	nq := 0
-	rounds := 2 + c.n(3)
-	for round := 0; round < rounds; round++ {
-		// some builder calls
-		nb := c.n(3)
-		if round == 0 {
-			nb = 1 + c.n(3)
-		}
-		for b := 0; b < nb && !registered; b++ {
-			t := c.n(12)
-			switch c.n(5) {
-			case 0:
-				if !inMap(t) {
-					dup := false
-					for _, x := range include {
-						if x == t {
-							dup = true
-						}
-					}
-					for _, x := range exclude {
-						if x == t {
-							dup = true
-						}
-					}
-					if !dup {
-						f.With(comps(t))
-						include = append(include, t)
-						r.Concrete = append(r.Concrete, fmt.Sprintf("filter.With(%v)", c18Types[t]))
-					}
-				}
-			case 1:
-				if !exclusive && !inMap(t) {
-					dup := false
-					for _, x := range include {
-						if x == t {
-							dup = true
-						}
-					}
-					if !dup {
-						f.Without(comps(t))
-						exclude = append(exclude, t)
-						r.Concrete = append(r.Concrete, fmt.Sprintf("filter.Without(%v)", c18Types[t]))
-					}
-				}
-			case 2:
-				if len(r.mapT) > 0 {
-					o := r.mapT[c.n(len(r.mapT))]
-					if o != rel && o < 12 {
-						f.Optional(comps(o))
-						optional = append(optional, o)
-						r.Concrete = append(r.Concrete, fmt.Sprintf("filter.Optional(%v)", c18Types[o]))
-					}
-				}
-			case 3:
-				if len(exclude) == 0 && !exclusive {
-					f.Exclusive()
-					exclusive = true
-					r.Concrete = append(r.Concrete, "filter.Exclusive()")
-				}
-			case 4:
-				if r.relT >= 0 && rel < 0 {
-					isOpt := false
-					for _, o := range optional {
-						if o == r.relT {
-							isOpt = true
-						}
-					}
-					if !isOpt {
-						rel = r.relT
-						if c.n(3) == 0 {
-							tg, _ := r.pick(c)
-							fixedTarget = &tg
-							f.WithRelation(comps(rel), []ecs.Entity{tg})
-						} else {
-							f.WithRelation(comps(rel), nil)
-						}
-						r.Concrete = append(r.Concrete, "filter.WithRelation")
-					}
+	nb := c.n(3)
+	if fl.nq == 0 {
+		nb = 1 + c.n(3)
+	}
+	for b := 0; b < nb && !fl.registered; b++ {
+		t := c.n(12)
+		switch c.n(5) {
+		case 0:
+			if !inMap(t) && !contains2(fl.include, t) && !contains2(fl.exclude, t) {
+				f.With(comps(t))
+				fl.include = append(fl.include, t)
+				r.Concrete = append(r.Concrete, fmt.Sprintf("filter.With(%v)", c18Types[t]))
+			}
+		case 1:
+			if !fl.exclusive && !inMap(t) && !contains2(fl.include, t) {
+				f.Without(comps(t))
+				fl.exclude = append(fl.exclude, t)
+				r.Concrete = append(r.Concrete, fmt.Sprintf("filter.Without(%v)", c18Types[t]))
+			}
+		case 2:
+			if len(r.mapT) > 0 {
+				o := r.mapT[c.n(len(r.mapT))]
+				if o != fl.rel && o < 12 {
+					f.Optional(comps(o))
+					fl.optional = append(fl.optional, o)
+					r.Concrete = append(r.Concrete, fmt.Sprintf("filter.Optional(%v)", c18Types[o]))
 				}
 			}
-		}
-		// register / unregister sometimes
-		if c.n(5) == 0 {
-			if !registered {
-				var msg string
-				func() {
-					defer func() {
-						if x := recover(); x != nil {
-							msg = fmt.Sprint(x)
-						}
-					}()
-					f.Register(G)
-				}()
-				if msg != "" {
-					return r.viol("FilterN.Register panicked: %s", msg)
+		case 3:
+			if len(fl.exclude) == 0 && !fl.exclusive {
+				f.Exclusive()
+				fl.exclusive = true
+				r.Concrete = append(r.Concrete, "filter.Exclusive()")
+			}
+		case 4:
+			if r.relT >= 0 && fl.rel < 0 && !contains2(fl.optional, r.relT) {
+				fl.rel = r.relT
+				if c.n(3) == 0 {
+					tg, _ := r.pick(c)
+					fl.fixedTarget = &tg
+					f.WithRelation(comps(fl.rel), []ecs.Entity{tg})
+				} else {
+					f.WithRelation(comps(fl.rel), nil)
 				}
-				registered = true
-				r.stats["filter-registered"]++
-				r.Concrete = append(r.Concrete, "filter.Register")
-			} else {
-				f.Unregister(G)
-				registered = false
-				r.Concrete = append(r.Concrete, "filter.Unregister")
+				r.Concrete = append(r.Concrete, "filter.WithRelation")
 			}
-		}
-		// query
-		var target *ecs.Entity
-		var tl []ecs.Entity
-		if rel >= 0 && fixedTarget == nil && !registered && c.n(2) == 0 {
-			tg, _ := r.pick(c)
-			target = &tg
-			tl = []ecs.Entity{tg}
-		}
-		withRel := rel >= 0 && !contains2(optional, rel)
-		var gq qres
-		var kents []ecs.Entity
-		var kn int
-		v, p := r.both(fmt.Sprintf("FilterN.Query #%d", nq), func() { gq = f.Query(G, tl, withRel) }, func() {
-			q := K.Query(coreFilter(target))
-			kents, kn = kCollect(&q)
-		})
-		nq++
-		if v != nil {
-			if registered {
-				f.Unregister(G)
-			}
-			return v
-		}
-		if p {
-			continue
-		}
-		if gq.count != kn || !sameEnts(gq.ents, kents) {
-			if registered {
-				f.Unregister(G)
-			}
-			return r.viol("FilterN.Query #%d (include %v optional %v exclude %v exclusive %v relation %d registered %v) selects %d entities, the equivalent core filter %d",
-				nq-1, include, optional, exclude, exclusive, rel, registered, len(gq.ents), len(kents))
-		}
-		opt := map[int]bool{}
-		for _, o := range optional {
-			opt[o] = true
-		}
-		for i, e := range gq.ents {
-			if v := r.checkPtrs("QueryN.Get", e, gq.ptrs[i], opt); v != nil {
-				if registered {
-					f.Unregister(G)
-				}
-				return v
-			}
-			if withRel && gq.rel[i] != K.Relations().Get(e, r.K.ids[rel]) {
-				return r.viol("QueryN.Relation = %v, Relations.Get = %v", gq.rel[i], K.Relations().Get(e, r.K.ids[rel]))
-			}
-		}
-		if nq > 1 {
-			r.stats["filter-requeried-after-change"]++
-		}
-		if len(gq.ents) > 0 {
-			r.stats["filter-query-nonempty"]++
 		}
 	}
-	if registered {
-		f.Unregister(G)
+	if c.n(5) == 0 {
+		if !fl.registered {
+			var msg string
+			func() {
+				defer func() {
+					if x := recover(); x != nil {
+						msg = fmt.Sprint(x)
+					}
+				}()
+				f.Register(G)
+			}()
+			if msg != "" {
+				return r.viol("FilterN.Register panicked: %s", msg)
+			}
+			fl.registered = true
+			r.stats["filter-registered"]++
+			r.Concrete = append(r.Concrete, "filter.Register")
+		} else {
+			f.Unregister(G)
+			fl.registered = false
+			r.Concrete = append(r.Concrete, "filter.Unregister")
+		}
+	}
+	var target *ecs.Entity
+	var tl []ecs.Entity
+	if fl.rel >= 0 && fl.fixedTarget == nil && !fl.registered && c.n(2) == 0 {
+		tg, _ := r.pick(c)
+		target = &tg
+		tl = []ecs.Entity{tg}
+	}
+	withRel := fl.rel >= 0 && !contains2(fl.optional, fl.rel)
+	var gq qres
+	var kents []ecs.Entity
+	var kn int
+	v, p := r.both(fmt.Sprintf("FilterN.Query #%d", fl.nq), func() { gq = f.Query(G, tl, withRel) }, func() {
+		r.syncTypes()
+		q := K.Query(coreFilter(target))
+		kents, kn = kCollect(&q)
+	})
+	fl.nq++
+	if v != nil {
+		return v
+	}
+	if p {
+		return nil
+	}
+	if gq.count != kn || !sameEnts(gq.ents, kents) {
+		return r.viol("FilterN.Query #%d (include %v optional %v exclude %v exclusive %v relation %d registered %v) selects %d entities, the equivalent core filter %d",
+			fl.nq-1, fl.include, fl.optional, fl.exclude, fl.exclusive, fl.rel, fl.registered, len(gq.ents), len(kents))
+	}
+	opt := map[int]bool{}
+	for _, o := range fl.optional {
+		opt[o] = true
+	}
+	for i, e := range gq.ents {
+		if v := r.checkPtrs("QueryN.Get", e, gq.ptrs[i], opt); v != nil {
+			return v
+		}
+		if withRel && gq.rel[i] != K.Relations().Get(e, r.K.ids[fl.rel]) {
+			return r.viol("QueryN.Relation = %v, Relations.Get = %v", gq.rel[i], K.Relations().Get(e, r.K.ids[fl.rel]))
+		}
+	}
+	if fl.nq > 1 {
+		r.stats["filter-requeried-after-change"]++
+	}
+	if len(gq.ents) > 0 {
+		r.stats["filter-query-nonempty"]++
 	}
 	return nil
 }
